@@ -47,6 +47,13 @@ pub fn encode(lens: &[usize], src: &[u8]) -> io::Result<Vec<u8>> {
             x = parameters.s_tab[0];
 
             let param = &parameters.params[usize::from(x)];
+
+            // A record of length 0 cannot be represented (the next symbol would be decoded
+            // with a position of 0). It also has no quality scores, so it is skipped.
+            while lens[rec_num] == 0 {
+                rec_num += 1;
+            }
+
             let len = lens[rec_num];
 
             if !param.flags.is_fixed_length() || rec_num == 0 {
